@@ -41,7 +41,7 @@
 From V.lib Require Import Base.
 From V.model Require Import Shutdown.
 From V.model Require Sync SyncSpec.
-From V.proofs Require Import Shutdown_Proofs Shutdown_Term_Proofs Shutdown_Witness_Proofs.
+From V.proofs Require Import Shutdown_Proofs Shutdown_Term_Proofs Shutdown_Witness_Proofs Shutdown_Untrusted_Proofs.
 
 (* stopped_silent: in every reachable state with stopped = true, Run has returned, no goroutine
    exists any more in any state - in particular none that could invoke a handler - and no handler
@@ -280,6 +280,70 @@ Theorem C19_settle_reach : forall fuel listen a b c d w,
 Proof. exact settle_reach. Qed.
 Print Assumptions C19_settle_reach.
 
+(* ---- monitorUntrustedNodes with its mutex and its list (`mstep`, model/Shutdown.v) ----
+   The goroutine MU of the system above in detail: untrustedLock, the list node.untrustedNodes, scan() with its
+   window and its flag, the untrusted nodes (dialling / active / done, listed or not), CleanupBlock over the LIST.
+   Switches lock_early (untrustedLock taken before the stop test that follows scan(), the loop left with the
+   lock held) and dial_unlocked (UntrustedNode.Run does not hold the node's lock across the dial: IsActive says
+   "not active" for a node that is dialling); both false = the code as it is.  mrun l = the state after the
+   actions l (monitor steps, timers, node steps, stop request, restart, in-sync flag, announcements, block
+   clean-ups, tracker checks, addresses told, ...), ALL lists l. *)
+
+(* the monitor reaches "stop all" (where it takes untrustedLock to stop the listed nodes) never holding the lock *)
+Theorem C19_untrusted_lock_free_at_stop_all : forall (dial_unlocked : bool) (l : list mact),
+  let s := mrun false dial_unlocked l in m_pc s = MStopAll -> m_lock s = false.
+Proof. intros du l. exact (lock_free_at_stop_all false du l eq_refl). Qed.
+Print Assumptions C19_untrusted_lock_free_at_stop_all.
+
+(* every untrusted node started for the list that has not finished (dialling or active) is in the list *)
+Theorem C19_untrusted_running_listed : forall (lock_early : bool) (l : list mact) (n : unode),
+  In n (m_nodes (mrun lock_early false l)) -> n_scan n = false -> is_done n = false -> n_listed n = true.
+Proof. intros le l n. exact (running_nodes_listed le false l n eq_refl). Qed.
+Print Assumptions C19_untrusted_running_listed.
+
+(* ... so the clean-up after a block reaches every tracker: no node keeps the announcement of a confirmed tx
+   and no peer is ever asked for one *)
+Theorem C19_untrusted_no_confirmed_request : forall (lock_early : bool) (l : list mact),
+  m_bad (mrun lock_early false l) = false /\ forall n, In n (m_nodes (mrun lock_early false l)) -> n_stale n = [].
+Proof. intros le l. exact (no_confirmed_request le false l eq_refl). Qed.
+Print Assumptions C19_untrusted_no_confirmed_request.
+
+(* after a stop request every step of the monitor or of one of its nodes lowers mrank ... *)
+Theorem C19_untrusted_stop_step_lowers_rank : forall (lock_early dial_unlocked : bool) (s s' : mst) (a : mact),
+  m_stop s = true -> mthread_act a = true -> mstep_opt lock_early dial_unlocked s a = Some s' ->
+  (mrank s' < mrank s)%nat /\ m_stop s' = true.
+Proof. intros le du s s' a. exact (stop_step_lowers_rank le du s a s'). Qed.
+Print Assumptions C19_untrusted_stop_step_lowers_rank.
+
+(* ... and from every reachable state one of them is enabled until the monitor is done: the monitor (with the lock
+   and IsActive's wait for a dialling node modelled) ends within mrank <= 11 + 2 * nodes steps *)
+Theorem C19_untrusted_monitor_terminates : forall (l : list mact),
+  let s := mrun false false l in
+  m_stop s = true -> m_pc (mdrive false false (mrank s) s) = MDone.
+Proof.
+  intros l s St. apply (monitor_terminates false false (mrank s) s eq_refl eq_refl); auto.
+  exact (all_inv_run false false l eq_refl eq_refl).
+Qed.
+Print Assumptions C19_untrusted_monitor_terminates.
+
+(* lock_early: Stop inside the scan window; the monitor stands at "stop all" holding the lock it needs there,
+   and whatever happens afterwards it never finishes (the run loop waits for it: Stop never returns) *)
+Theorem C19_lock_early_refuted :
+  let s := mrun true false lock_early_schedule in
+  m_stop s = true /\ m_pc s = MStopAll /\ m_lock s = true /\
+  forall l, m_pc (mrun_from true false s l) <> MDone.
+Proof. exact lock_early_refuted. Qed.
+Print Assumptions C19_lock_early_refuted.
+
+(* dial_unlocked: a node dropped from the list during its slow dial runs unlisted, is asked for a confirmed tx, and
+   after a stop request nothing stops it: neither the monitor nor a node can move, the monitor waits for ever *)
+Theorem C19_dial_unlocked_refuted :
+  let s := mrun false true dial_unlocked_schedule in
+  m_bad s = true /\ m_stop s = true /\ m_pc s = MWait /\ mpick false true s = None /\
+  exists n, nth_error (m_nodes s) 0 = Some n /\ n_st n = UActive /\ n_listed n = false /\ n_scan n = false.
+Proof. exact dial_unlocked_refuted. Qed.
+Print Assumptions C19_dial_unlocked_refuted.
+
 (* ---- non-vacuity ----
    A prompt schedule through connect, tx traffic, a lost connection, the restart, the reconnection, a
    stop request in the middle of the second round and the phased shutdown to stopped: the hypotheses of
@@ -378,3 +442,32 @@ Example C19_example_d26_scenario :
               [0; 0; 0]; [0; 0; 0; 0; 1; 1; 1; 1; 0; 0]] /\
   c19_monitor ops (srun ops) = None.
 Proof. vm_compute. split; reflexivity. Qed.
+
+(* the two schedules of the refutations on the code as it is: the monitor ends / nothing bad is asked; and the
+   scenario model on the new scenario kinds (Stop inside the scan window; a slow dial, then the C14 flow;
+   a peer dropped and another one connected): the monitor accepts what the model predicts *)
+Example C19_example_untrusted_schedules :
+  m_pc (mdrive false false 40 (mrun false false lock_early_schedule)) = MDone /\
+  m_bad (mrun false false dial_unlocked_schedule) = false /\
+  m_pc (mdrive false false 40 (mrun false false dial_unlocked_schedule)) = MDone.
+Proof. vm_compute. repeat split; reflexivity. Qed.
+Example C19_example_untrusted_scenarios :
+  let sync := [SStart; SAccept; SVersion; SSync] in
+  let scanstop := [SUCount 1; SUPeer 2] ++ sync ++ [SWaitScan true; SUWaitSeen 0; SSleep; SStop; SQuiet; SStored; SCountsU] in
+  let slow := [SUCount 1; SUPeer 3] ++ sync ++ [SSleep; SURelease 0; SUWaitConn 0; SUListed 0; SInv 7; SUInv 0 7; STxBlock 7 true;
+                                               STxAge; SUGetData 0 7; SStop; SCountsU] in
+  let drop := [SUCount 1; SUPeer 1; SUPeer 1] ++ sync ++ [SUWaitConn (-1); SUListed (-1); SUClose (-1); SUWaitConn (-1);
+                                                          SUListed (-1); SInv 7; SUInv (-1) 7; STxAge; SUGetData (-1) 7; SStop; SCountsU] in
+  srun scanstop = [[0]; [0]; [0]; [0; 1; 0]; [0; 1; 1; 0]; [0; 1]; [0; 1]; [0; 1]; [0]; [0; 1; 1]; [0; 0; 0];
+                   [0; 0; 0; 0; 1; 0; 0; 1; 1; 1]; [0; 0]] /\
+  srun slow = [[0]; [0]; [0]; [0; 1; 0]; [0; 1; 1; 0]; [0; 1]; [0]; [0]; [0; 1]; [0; 1; 1]; [0; 1]; [0; 1; 0]; [0; 1; 1; 1]; [0];
+               [0; 1; 0]; [0; 1; 1]; [0; 0]] /\
+  nth 16 (srun drop) [] = [0; 1; 1] /\
+  c19_monitor scanstop (srun scanstop) = None /\ c19_monitor slow (srun slow) = None /\ c19_monitor drop (srun drop) = None /\
+  (* what the monitor says about the observations of the two seeded variants *)
+  c19_monitor scanstop [[0]; [0]; [0]; [0; 1; 0]; [0; 1; 1; 0]; [0; 1]; [0; 1]; [0; 1]; [0]; [0; 0; 0]; [0; -1; 0]; [0; -1]; [0; 0]] = Some (9, [902]) /\
+  c19_monitor slow [[0]; [0]; [0]; [0; 1; 0]; [0; 1; 1; 0]; [0; 1]; [0]; [0]; [0; 1]; [0; 1; 0]; [0; 1]; [0; 1; 0]; [0; 1; 1; 1]; [0];
+                    [0; 1; 1]; [0; 0; 0]; [0; 1]] = Some (9, [914]) /\
+  c19_monitor slow [[0]; [0]; [0]; [0; 1; 0]; [0; 1; 1; 0]; [0; 1]; [0]; [0]; [0; 1]; [0; 1; 1]; [0; 1]; [0; 1; 0]; [0; 1; 1; 1]; [0];
+                    [0; 1; 1]; [0; 1; 1]; [0; 0]] = Some (14, [913]).
+Proof. vm_compute. repeat split; reflexivity. Qed.
